@@ -194,7 +194,69 @@ def run_persistent(unit):
     return out
 
 
+def _reduce_configs(clsname):
+    import klepto.archives as A
+    import klepto.keymaps as KM
+    for maxsize in (1, 2, 5):
+        for purge in (False, True):
+            for tol in (None, 1):
+                for deep in (False, True):
+                    for ignore in (None, 'y', ('y', 0)):
+                        kw = {'cache': A.dict_archive('r', cached=True), 'keymap': KM.stringmap(), 'ignore': ignore, 'tol': tol, 'deep': deep}
+                        if clsname not in ('no_cache', 'inf_cache'):
+                            kw.update(maxsize=maxsize, purge=purge)
+                        yield {k: v for k, v in kw.items() if k not in ('cache', 'keymap')}, kw
+
+
+def _reduce_differs(modname, clsname, kw):
+    import importlib
+    cls = getattr(importlib.import_module(modname), clsname)
+    d = cls(**kw)
+    rcls, rargs = d.__reduce__()[:2]
+    e = rcls(*rargs)
+    if type(e) is not type(d):
+        return 'reconstruction is a %s' % type(e).__name__
+    for k in sorted(d.__state__):
+        a, b = d.__state__[k], e.__state__.get(k)
+        if k == 'roundargs':
+            same = type(a) is type(b) or getattr(a, '__qualname__', 1) == getattr(b, '__qualname__', 2)
+        elif k in ('cache', 'keymap'):
+            same = a is b
+        else:
+            same = (a == b and type(a) is type(b))
+        if not same:
+            return '__state__[%r] is %r in the original and %r after  cls(*__reduce__()[1])' % (k, a, b)
+    return None
+
+
+def level_a_search(name):
+    """a concrete configuration on which  cls(*d.__reduce__()[1])  differs from d, for a failed Level-A reduce obligation"""
+    head = name.split('.__reduce__')[0]          # '_cache:lru_cache'
+    if ':' not in head:
+        return None
+    modfile, clsname = head.split(':')
+    modname = 'klepto.' + modfile
+    for label, kw in _reduce_configs(clsname):
+        try:
+            why = _reduce_differs(modname, clsname, kw)
+        except Exception as e:      # noqa
+            why = 'raises %r' % (e,)
+        if why:
+            return {'reduce': [modname, clsname, label]}
+    return None
+
+
 def replay(w):
+    if 'reduce' in w:
+        modname, clsname, label = w['reduce']
+        for lab, kw in _reduce_configs(clsname):
+            if lab == label or list(lab.items()) == list(label.items()) or {k: (list(v) if isinstance(v, tuple) else v) for k, v in lab.items()} == label:
+                try:
+                    why = _reduce_differs(modname, clsname, kw)
+                except Exception as e:      # noqa
+                    why = 'raises %r' % (e,)
+                return bool(why), '%s.%s(**%r): %s' % (modname, clsname, lab, why or 'reconstruction has an equal configuration')
+        return False, 'configuration %r not in scope' % (label,)
     if 'persistent' in w:
         r = run_persistent(tuple(w['unit']))
         return bool(r['violations']), (r['violations'][0]['message'][:600] if r['violations'] else 'archive unchanged, clone equal')
@@ -222,3 +284,13 @@ def replay(w):
     if state(f) != before:
         return True, 'continuing a clone changed the original from %r to %r' % (before, state(f))
     return False, 'original and clone agree'
+
+
+def level_a(tier):
+    """klepto's own part of the round trip, proved by pyvc: decorator.__reduce__() + cls(*args) reconstructs an equal configuration (x12)"""
+    from checks import wrapperprops
+    la = wrapperprops.level_a_summary('C20', tier)
+    lr = wrapperprops.rounding_level_a('obligations_reduce')
+    return {'obligations': la['obligations'] + lr['obligations'], 'discharged': la['discharged'] + lr['discharged'],
+            'failed': la['failed'] + lr['failed'], 'functions': sorted(set(la['functions']) | set(lr['functions'])),
+            'ms': round(la['ms'] + lr['ms'], 1), 'unsupported': la['unsupported'] + lr['unsupported']}
